@@ -22,7 +22,8 @@ HARNESSES = [Harness('s_c08', ['harness/s_c08.cc'], sdk_srcs=sdk_sources('common
                      includes=SDK_INCLUDES)]
 H = 's_c08'
 RULE = ('attr: pairs of attribute lists (random permutations, overridden duplicates, all 16 value types, keys with NUL / high bytes / '
-        'prefixes of each other / empty, passed as unterminated string_views) under the default processor and allow-lists, through '
+        'prefixes of each other / empty, passed as string_views that are not NUL-terminated at their length: exact-size heap blocks for all '
+        'cases without an allow-list and a sample with one, guarded blocks for the rest) under the default processor and allow-lists, through '
         'FilteredOrderedAttributeMap, operator==, the hash and an AttributesHashMap lookup; series: record/collect histories over a '
         'real SyncMetricStorage with limits 1-8 (and 0) and over MeterProvider + view (default limit 2000, thorough: > 2000 sets), '
         '1-3 delta/cumulative readers, 1-6+ collection cycles. non-trivial = at least one attribute pair / one recorded '
@@ -164,6 +165,23 @@ def rand_filter(rng, keys):
     return ','.join((k.hex() or '_') for k in sorted(ks))
 
 
+EXACT_BUDGET = [0]
+
+
+def key_mode(rng, flt, op, tags):
+    """keys in exact-size blocks (an out-of-bounds / C-string read is a sanitizer abort) for every case without an
+    allow-list and for a bounded sample of those with one; the rest use guarded blocks (see harness/s_c08.cc)"""
+    if flt == '*':
+        tags.append('keys-exact')
+        return op
+    if EXACT_BUDGET[0] > 0 and rng.random() < 0.03:
+        EXACT_BUDGET[0] -= 1
+        tags.append('keys-exact')
+        return op
+    tags.append('keys-guarded')
+    return op + 'g'
+
+
 def gen_attr(rng, out, n):
     for _ in range(n):
         nk = rng.choice([0, 1, 1, 2, 3, 4, 6])
@@ -188,7 +206,8 @@ def gen_attr(rng, out, n):
         else:
             b = scramble(rng, [(k, rand_value(rng)) for k in rng.sample(KEYS, rng.randrange(0, 4))]); tags.append('unrelated')
         tags.append('filter-' + ('all' if flt == '*' else 'empty' if flt == '-' else 'allow'))
-        out.append(Case(f'attr eq {flt} {attrs_tok(a)} {attrs_tok(b)}', H, tags))
+        op = key_mode(rng, flt, 'eq', tags)
+        out.append(Case(f'attr {op} {flt} {attrs_tok(a)} {attrs_tok(b)}', H, tags))
 
 
 def rand_history(rng, nreaders, pool, flt_keys, nops, ncol_min):
@@ -221,10 +240,12 @@ def gen_series(rng, out, n, big):
         if rng.random() < 0.8:
             limit = rng.choice([1, 2, 2, 3, 3, 4, 5, 6, 7, 8])
             tags = ['series', 'store', f'limit-{limit}', 'readers-' + readers]
-            out.append(Case(f'series store {limit} {flt} {readers} ' + ' ; '.join(ops), H, tags))
+            op = key_mode(rng, flt, 'store', tags)
+            out.append(Case(f'series {op} {limit} {flt} {readers} ' + ' ; '.join(ops), H, tags))
         else:
             tags = ['series', 'sdk', 'limit-default', 'readers-' + readers]
-            out.append(Case(f'series sdk {flt} {readers} ' + ' ; '.join(ops), H, tags))
+            op = key_mode(rng, flt, 'sdk', tags)
+            out.append(Case(f'series {op} {flt} {readers} ' + ' ; '.join(ops), H, tags))
     # many distinct sets against small limits, several cycles (recn)
     for _ in range(n // 10):
         readers = rng.choice(['D', 'C', 'DC', 'CC', 'CD'])
@@ -265,6 +286,8 @@ def corpus():
     c('attr eq 61 61=i64:1,6162=i64:2 61=i64:1', 'D11-unterminated-key')
     c('series store 4 6162 D rec 6162=i64:1 5 ; rec 6162=i64:2 6 ; col 0', 'D11-unterminated-key')
     c('attr eq 6100 6100=i64:1 61=i64:1', 'D11-key-with-NUL')
+    c('attr eqg 6162 6162=i64:1 6162=i64:1', 'D11-unterminated-key')
+    c('series storeg 4 6162 D rec 6162=i64:1 5 ; rec 6162=i64:2 6 ; col 0', 'D11-unterminated-key')
     # D10a: the limit must survive the first Collect
     c('series store 3 * D recn 6b 0 9 1 ; col 0 ; recn 6b 0 9 1 ; col 0', 'D10a-limit-after-first-collect')
     # D10b: cumulative / multi-reader output stays within the configured limit
@@ -281,6 +304,7 @@ def corpus():
 def generate(rng, tier):
     big = tier == 'thorough'
     out = []
+    EXACT_BUDGET[0] = 150
     gen_attr(rng, out, 400000 if big else 25000)
     gen_series(rng, out, 120000 if big else 8000, big)
     gen_malformed(rng, out)
@@ -323,7 +347,7 @@ def expand_ops(flt, toks):
 
 
 def check_series(t, out):
-    if t[1] == 'store':
+    if t[1] in ('store', 'storeg'):
         limit, flt, readers, rest = int(t[2]), parse_filter(t[3]), t[4], t[5:]
     else:
         limit, flt, readers, rest = 2000, parse_filter(t[2]), t[3], t[4:]
